@@ -26,7 +26,7 @@ RULE = ('seeded random (pva, lever arm, body rates present/absent, measurement v
         ' Round 5: with_altitude as bool or numpy.bool_.')
 ASSUMPTIONS = ['Jacobian reference = Richardson central differences of the real residual through the real correct_pva; '
                'steps 10 m / 1 m/s / 1e-4 rad', 'position residual compared to first order: bound 4|z|^2 (1+tan lat)/R']
-REQUIRED_OBS = ['repeated_value_rows_checked', 'lever_with_zero_components', 'data_columns_permuted', 'simulated_fixes_at_antimeridian', 'history_independence_checked', 'residual_checked', 'jacobian_checked', 'noise_checked', 'absent_time_checked', 'sim_zero_residual',
+REQUIRED_OBS = ['data_rows_not_chronological', 'absent_requests_in_history', 'repeated_value_rows_checked', 'lever_with_zero_components', 'data_columns_permuted', 'simulated_fixes_at_antimeridian', 'history_independence_checked', 'residual_checked', 'jacobian_checked', 'noise_checked', 'absent_time_checked', 'sim_zero_residual',
                 'sim_injected_error', 'translate_consistency', 'lever_and_rates_cases']
 REQUIRED_CLASSES = {'all': ['Position', 'NedVelocity', 'BodyVelocity', 'simulators']}
 LLA = ['lat', 'lon', 'alt']
@@ -210,6 +210,15 @@ def gen_pva(rng, with_rates):
     return pd.Series(vals, index=idx, name=float(np.round(rng.uniform(0, 100), 3)))
 
 
+def unsort(data, rng):
+    # Round 6: a log whose rows are not in chronological order (two files concatenated later-first, a receiver buffer flushed out of order);
+    # the stamps are unique, every row is still a sample at its own time
+    if len(data) > 1 and rng.random() < 0.35:
+        bump('data_rows_not_chronological')
+        return data.iloc[rng.permutation(len(data))]
+    return data
+
+
 def run_case(case):
     from pyins import measurements, sim, transform
     from pyins.error_model import InsErrorModel
@@ -248,6 +257,7 @@ def run_case(case):
                 if rng.random() < 0.3:
                     data = forms.shuffle_table(data, rng, extra=bool(rng.integers(0, 2)), nan_extra=True)
                     bump('data_columns_permuted')
+                data = unsort(data, rng)
                 meas = measurements.Position(data, sd, lever)
             elif cls == 'NedVelocity':
                 data = pd.DataFrame(pva[VEL].values.astype(float) + rng.standard_normal((len(times), 3)) * (30 if far else 0.3),
@@ -255,6 +265,7 @@ def run_case(case):
                 if rng.random() < 0.4:
                     data = forms.shuffle_table(data, rng, extra=bool(rng.integers(0, 2)), nan_extra=True)
                     bump('data_columns_permuted')
+                data = unsort(data, rng)
                 meas = measurements.NedVelocity(data, sd, lever)
             else:
                 data = pd.DataFrame(C.T @ pva[VEL].values.astype(float) + rng.standard_normal((len(times), 3)) * (30 if far else 0.3),
@@ -262,6 +273,7 @@ def run_case(case):
                 if rng.random() < 0.4:
                     data = forms.shuffle_table(data, rng, extra=bool(rng.integers(0, 2)), nan_extra=True)
                     bump('data_columns_permuted')
+                data = unsort(data, rng)
                 meas = measurements.BodyVelocity(data, sd)
                 lever = None
                 STATE['case_lever'] = None
@@ -367,7 +379,16 @@ def run_case(case):
                 mode = bool(rng.integers(0, 2))
                 i = int(rng.integers(0, n))
                 pv = traj.iloc[i] if rng.random() < 0.5 else traj.iloc[i][LLA + VEL + RPH]
+                if rng.random() < 0.4:
+                    # a request for a time the sensor has no sample at (later than, earlier than or between its samples) must leave no trace
+                    t_abs = float(tt[int(rng.integers(0, n))] + rng.choice([0.5, -0.5, 0.25]))
+                    if live[nm].compute_matrices(t_abs, pv, shared[mode]) is not None:
+                        out.append(vio('absent_time', f'{nm}: a result for time {t_abs} which is not in the data'))
+                    bump('absent_requests_in_history')
                 got = live[nm].compute_matrices(tt[i], pv, shared[mode])
+                if got is None:
+                    out.append(vio('present_time', f'{nm}: nothing returned at t={tt[i]} which is in the data (step {step} of a history of requests on the same object)'))
+                    break
                 ref = objs[nm]().compute_matrices(tt[i], pv, InsErrorModel(mode))         # fresh object, fresh error model
                 bump('history_independence_checked')
                 for a_, b_, part in zip(got, ref, 'zHR'):
